@@ -769,13 +769,22 @@ def replay_witnesses(ctx, monitors):
         ctx.known_hits[k["id"]] = before
 
 
-def run_family(ctx, areas, monitors, rule):
+def run_family(ctx, areas, monitors, rule, regress=()):
+    """`regress`: witness files of findings that have been repaired, run like a generated family (compared with the
+    model, judged by the monitors with nothing excused), so the defect is reported if it returns"""
     ctx.known_hits = collections.Counter()
     replay_witnesses(ctx, monitors)
     covs = {}
     nconn = 0
-    for area in areas:
-        ops, impl, model = ctx.gen_run_compare(ctx.pid, area, ctx.tier, ctx.seed, ctx.log)
+    inputs = [(area, None) for area in areas]
+    for path in regress:
+        full = os.path.join(ctx.root, path)
+        if os.path.exists(full):
+            inputs.append(("regress_" + os.path.basename(path).split(".")[0], [l.rstrip("\n") for l in open(full)]))
+        else:
+            ctx.broken.append(dict(what="regression input %s is missing" % path, detail=""))
+    for area, fixed_ops in inputs:
+        ops, impl, model = ctx.gen_run_compare(ctx.pid, area, ctx.tier, ctx.seed, ctx.log, extra_ops=fixed_ops)
         cov, diffs = srv_compare(ctx, area, ops, impl, model)
         conns = split_conns(ops, impl, model)
         nconn += len(conns)
@@ -861,8 +870,10 @@ def run_c17(ctx):
 
 
 def run_c18(ctx):
-    return run_family(ctx, ["srv-settings"], [mon_settings],
-                      "srv-settings: 1-4 SETTINGS frames per connection over 8 ids (incl. unknown) x boundary values, each followed by a request answered with header values of 1-17000 octets and bodies of 1-70000 octets.")
+    return run_family(ctx, ["srv-settings", "srv-tabledip"], [mon_settings],
+                      "srv-settings: 1-4 SETTINGS frames per connection over 8 ids (incl. unknown) x boundary values, each followed by a request answered with header values of 1-17000 octets and bodies of 1-70000 octets. "
+                      "srv-tabledip: responses whose :status the encoder stores in its dynamic table (201, 418, 503), between them 1-2 SETTINGS frames with 1-3 HEADER_TABLE_SIZE values each over {0, 41, 42, 100, 4096, 65536} and other settings mixed in; the peer's decoder follows its own announcements value by value, so every dip must be announced (the shapes of the repaired F09s first, then known/F09s.ops).",
+                      regress=["known/F09s.ops"])
 
 
 def run_c20(ctx):
